@@ -113,6 +113,8 @@ def violates(w, r):
         return True, 'stdout %r is none of the expected %r' % (r['stdout'][:200], w['expect_stdout_any'])
     if 'expect_stdout_prefix' in w and not r['stdout'].startswith(w['expect_stdout_prefix']):
         return True, 'stdout %r does not start with %r' % (r['stdout'][:200], w['expect_stdout_prefix'])
+    if 'expect_stdout_not_contains' in w and w['expect_stdout_not_contains'] in r['stdout']:
+        return True, 'stdout %r contains %r' % (r['stdout'][:200], w['expect_stdout_not_contains'])
     if 'expect_stdout_contains' in w and w['expect_stdout_contains'] not in r['stdout']:
         return True, 'stdout %r does not contain %r' % (r['stdout'][:200], w['expect_stdout_contains'])
     if 'expect_stdout_last_line_not' in w:
